@@ -232,6 +232,8 @@ def judge_sites(repo, cg, rep, reached, parent, sites, unaudited, distinct_ext, 
             if name in ("encode", "decode") and isinstance(s.node, ast.Call) and s.node.args and not isinstance(s.node.args[0], ast.Constant):
                 v = "forbidden"
                 qm = f"{qm}(<codec name computed from data>)"
+            if qm.rsplit(".", 1)[0] in ("io.BytesIO", "io.StringIO", "BytesIO", "StringIO", "bytearray", "NoneType") and name in ("write", "writelines", "truncate", "seek", "read", "getvalue", "extend"):
+                v = "inert"  # an in-memory buffer created by the analysis itself
             if v == "forbidden" and qm.split(".")[0] in ("str", "list", "dict", "set", "tuple", "bytes", "int", "value", "List", "Dict", "Set", "Tuple", "Optional", "Iterable", "Iterator", "Sequence", "FrozenSet", "NoneType", "bool", "float"):
                 v = "inert"  # e.g. dict.get / list.remove on a builtin container: the method name collides, the receiver type rules it out
             verdicts.append((v, qm))
